@@ -386,6 +386,68 @@ def csv_case(rep, rng, thorough, tmpdir):
 		rep.diff('csv', '; '.join(bad[:3]), case, py=bad[:6], oracle=True, theorem=THEOREM, finding_id=None)
 
 
+def csv_mp_case(rep, rng, tmpdir):
+	"""Multi-product networks: every row has one cell per column label, and every cell is the state variable its label names
+	(labels ABBR:<node>|<product>, ABBR:<product>, ABBR:EXT)."""
+	from stockpyl import sim_io
+	spec = mplib.gen_mp_spec(rng)
+	case = {'mp_spec': spec}
+	rep.case('csv', case, nontrivial=True); rep.count('csv:multi-product')
+	bad = []
+	try:
+		with warnings.catch_warnings():
+			warnings.simplefilter('ignore')
+			r = mplib.run_mp(spec)
+			if 'error' in r:
+				return
+			net = r['net']
+			path = os.path.join(tmpdir, 'resmp_%d.csv' % rng.randint(0, 10 ** 9))
+			with contextlib.redirect_stdout(io.StringIO()):
+				sim_io.write_results(net, spec['T'], columns_to_print='all', write_csv=True, csv_filename=path)
+			rows = list(csv.reader(open(path)))
+			os.remove(path)
+		header, data = rows[0], rows[1:]
+		if any(len(r_) != len(header) for r_ in data):
+			bad.append('rows have %s cells but there are %d column labels' % (sorted({len(r_) for r_ in data}), len(header)))
+		simple = {'DISR': 'disrupted', 'HC': 'holding_cost_incurred', 'SC': 'stockout_cost_incurred', 'ITHC': 'in_transit_holding_cost_incurred', 'REV': 'revenue_earned', 'TC': 'total_cost_incurred'}
+		two = {'OQ': 'order_quantity', 'OO': 'on_order_by_predecessor', 'IS': 'inbound_shipment', 'IDI': 'inbound_disrupted_items', 'ISPL': 'inbound_shipment_pipeline',
+			   'IO': 'inbound_order', 'OS': 'outbound_shipment', 'BO': 'backorders_by_successor', 'ODI': 'outbound_disrupted_items', 'IOPL': 'inbound_order_pipeline'}
+		one = {'OQFG': 'order_quantity_fg', 'PFG': 'pending_finished_goods', 'DMFS': 'demand_met_from_stock', 'FR': 'fill_rate', 'IL': 'inventory_level', 'RM': 'raw_material_inventory'}
+		node = None
+		for col, h in enumerate(header):
+			if bad:
+				break
+			if h.startswith('i='):
+				node = net.nodes_by_index[int(h[2:])]; continue
+			if node is None or h in ('t', ''):
+				continue
+			abbr, _, key = h.partition(':')
+			for r_ in data[:6]:
+				sv = node.state_vars[int(r_[0])]
+				want = None
+				try:
+					if h in simple:
+						want = getattr(sv, simple[h])
+					elif abbr in two and '|' in key:
+						a_, b_ = key.split('|')
+						want = getattr(sv, two[abbr])[None if a_ == 'EXT' else int(a_)][int(b_)]
+						if abbr in ('ISPL', 'IOPL'):
+							want = want[1:]
+					elif abbr in one and key.lstrip('-').isdigit():
+						want = getattr(sv, one[abbr])[int(key)]
+					else:
+						continue
+				except (KeyError, IndexError):
+					bad.append("node %s: column label '%s' names a state variable entry that does not exist" % (node.index, h)); break
+				if col >= len(r_) or not cell_eq(r_[col], want):
+					bad.append("period %s node %s column '%s' shows %s but that state variable is %s" % (r_[0], node.index, h, r_[col] if col < len(r_) else '(nothing)', want)); break
+	except Exception as e:
+		import traceback
+		bad.append('raised %s: %s' % (err_enum(e), traceback.format_exc()[-300:]))
+	if bad:
+		rep.diff('csv', 'multi-product network: ' + '; '.join(bad[:3]), case, py=bad[:6], oracle=True, theorem=THEOREM, finding_id=None)
+
+
 def cell_eq(cell, want):
 	if isinstance(want, bool):
 		return cell == str(want)
@@ -455,6 +517,9 @@ def run(rep, drv):
 			store_case(rep, drv, rngs, tmpdir)
 		for k in range(500 if th else 70):
 			csv_case(rep, rng, th, tmpdir)
+		rngm = random.Random(rep.seed + 1718)
+		for k in range(150 if th else 25):
+			csv_mp_case(rep, rngm, tmpdir)
 	finally:
 		shutil.rmtree(tmpdir, ignore_errors=True)
 
